@@ -40,6 +40,8 @@ def check(src, rep):
     if n:
         rep.ok("R2", "over-long rows", f"{n} path(s): length guard true => nothing emitted, current frame dropped")
     emit_h(rep, m, fresh_only_at_flag(m), {"start-at-flag": "R2"})
+    from sa.hdlcref import raw_history_values
+    emit_h(rep, m, raw_history_values(m), {"raw-value": "R2"})
     from sa.hdlcref import skeleton as hdlc_skeleton
     emit_h(rep, m, [r for r in hdlc_skeleton(m) if r.tag == "hunt-trim"], {"hunt-trim": "R2"})
     emit_h(rep, m, [r for r in hdlc_buffer(m) if r.instance in ("trim-to-flag", "trim-to-position", "pop")], {"buffer": "R2"})
@@ -51,6 +53,8 @@ def check(src, rep):
     emit_p(rep, p, [r for r in p1model.exit_and_guard(p) if r.tag in ("trip", "exit", "unconsumed", "limit")], {"trip": "R3", "exit": "R3", "unconsumed": "R3", "limit": "R3"})
     emit_p(rep, p, [r for r in p1model.buffer_contracts(p) if r.instance in ("trim-to-start", "pop")], {"buffer": "R3"})
     emit_p(rep, p, [r for r in p1model.skeleton(p) if r.tag in ("hunt-trim", "skeleton")], {"hunt-trim": "R3", "skeleton": "R3"})
+    from sa.cross import include
+    include(rep, src, "C02", {"R1", "R2", "R3"}, "R2", "every subsequent well-formed frame is delivered (the reader step refines the reference automaton; the maximum frame is admitted)")
     rep.floor("abstract states explored", nstates, 4)
 
 
